@@ -30,7 +30,7 @@ func init() { props["C03"] = runC03 }
 // `safefix` / `repaired` for self-tests against a patched copy (VERIF_REPO=… VERIF_C03_MODEL=safefix).
 func c03Model() string {
 	switch m := os.Getenv("VERIF_C03_MODEL"); m {
-	case "safefix", "safefix2", "repaired", "aswas":
+	case "safefix", "safefix2", "safefix3", "repaired", "aswas":
 		return m
 	}
 	return "asis"
@@ -595,7 +595,7 @@ func runC03(c *Ctx) {
 		src string
 		ex  int
 	}{{"nil", 1}, {"Fs(1)", 0}, {"filter(Ints, {# > 1})", 0}, {"map(Ints, {# + 1})", 0}, {"MSI[1]", 0}, {"Ints[\"a\"]", 0},
-		{"My == 1", 0}, {"map(Ints, {nil})", 0}, {"Any?.x", 1}, {"1 + 2", 2}, {"I8 + 1", 2}, {"F32 * 2", 3}, {"I", 3}, {"Str", 2}, {"B", 1}, {"I", 1}} {
+		{"My == 1", 0}, {"map(Ints, {nil})", 0}, {"Ff(+U64)", 0}, {"Fi(F64 + 1)", 0}, {"Arr[:]", 0}, {"len(Arr[1:2])", 0}, {"{(1): 2}", 0}, {"MSI[:]", 0}, {"F32 in MII", 0}, {"Any?.x", 1}, {"1 + 2", 2}, {"I8 + 1", 2}, {"F32 * 2", 3}, {"I", 3}, {"Str", 2}, {"B", 1}, {"I", 1}} {
 		cases = append(cases, c03Case{env: envs[0], src: s.src, expect: s.ex, static: false, goal: nil})
 	}
 
@@ -687,6 +687,7 @@ func runC03(c *Ctx) {
 		}
 		c03Oracle(c, cs)
 	}
+	c03IfaceArith(c)
 	for _, k := range []string{"check:accepted", "check:rejected", "oracle:static-runs", "oracle:mutants-rejected"} {
 		if c.R.Counters[k] == 0 {
 			c.R.Mismatch("generator", k, "", "counter is zero")
@@ -817,6 +818,50 @@ func c03IllKey(refClass string) string {
 	return refClass
 }
 
+// c03IfaceArith: `combined(interface{}, int)` is `int` (typeWeight of interface{} is 0), so arithmetic
+// with an interface-typed operand is reported with the other operand's numeric type although the value
+// may be of any numeric kind.  Such programs are not "statically typed" in the property's sense (an
+// operand has interface type), but the checker makes a static claim about them; the probes compare it
+// with what the VM yields.
+func c03IfaceArith(c *Ctx) {
+	env := popIface(EnvScalars{}).(EnvScalars)
+	env.Any = 1.5
+	env.Anys = []interface{}{1.5, 2}
+	for _, src := range []string{"Any * 1", "Any + I", "Anys[0] * 2", "I64 - Any", "(Any * 1) == 1", "filter(map(Anys, {# * 1}), {# in 1..3})"} {
+		tree, err := parser.Parse(src)
+		if err != nil {
+			c.R.Mismatch("generator", src, "", err.Error())
+			continue
+		}
+		ty, cerr := checker.Check(tree, conf.New(env))
+		rv := compileRunOpts(src, env, []expr.Option{expr.Env(env)})
+		c.R.Case("ifacearith|"+src, true)
+		in := c03Input{"EnvScalars/Any=1.5", src, "none", ""}
+		if cerr != nil || !rv.accepted {
+			continue
+		}
+		want := "(no static claim)"
+		if ty != nil {
+			want = ty.String()
+		}
+		switch {
+		case !rv.ran && runErrClass(rv.rerr) == "type":
+			violateKeyed16(c, Violation{What: "arithmetic with an interface-typed operand is given the other operand's numeric type (combined(interface{}, int) = int); type-directed code then fails or changes results", Key: "c03:dynamic-type-differs:arith-with-interface-operand", Input: in,
+				Expect: "no type error (static type " + want + ")", Got: rv.rerr})
+		case rv.ran && ty != nil && ty.Kind() != reflect.Interface && ty.Kind() != reflect.Slice && rv.out != nil && reflect.TypeOf(rv.out) != ty:
+			violateKeyed16(c, Violation{What: "arithmetic with an interface-typed operand is given the other operand's numeric type (combined(interface{}, int) = int); type-directed code then fails or changes results", Key: "c03:dynamic-type-differs:arith-with-interface-operand", Input: in,
+				Expect: "a value of type " + want, Got: fmt.Sprintf("%T (%v)", rv.out, rv.out)})
+		case rv.ran && src == "filter(map(Anys, {# * 1}), {# in 1..3})":
+			// the in-range rewrite fires on the (wrong) static type int: Eval (no types) yields [2]
+			ev, _ := expr.Eval(src, env)
+			if fmt.Sprint(ev) != fmt.Sprint(rv.out) {
+				violateKeyed16(c, Violation{What: "arithmetic with an interface-typed operand is given the other operand's numeric type (combined(interface{}, int) = int); type-directed code then fails or changes results", Key: "c03:dynamic-type-differs:arith-with-interface-operand", Input: in,
+					Expect: fmt.Sprintf("%v (as expr.Eval)", ev), Got: fmt.Sprint(rv.out)})
+			}
+		}
+	}
+}
+
 func c03DynKey(src string) string {
 	switch {
 	case strings.Contains(src, "filter("):
@@ -838,7 +883,9 @@ func c03TypeErrKey(src, rerr string) string {
 	case strings.Contains(rerr, "interface conversion"):
 		return "interface-conversion"
 	case strings.Contains(rerr, "reflect: Call using"):
-		return "call-argument"
+		return "retyped-non-literal-argument"
+	case strings.Contains(rerr, "slice of unaddressable array"):
+		return "slice-of-array"
 	}
 	return "other"
 }
